@@ -257,16 +257,20 @@ class C11(Check):
         "cp1252 holes, a lone UTF-16 surrogate) inside comments and literals; `encoding` = autodetect (any on-disk "
         "encoding per file) or explicit (files in that encoding; sometimes a UTF-8 BOM under explicit utf-8). "
         "The effective encoding is NOT assumed: a read-only API lint of the same directory gives, per file, "
-        "LintedFile.encoding (what get_encoding/chardet chose), the source patches (LintedFile.source_patches or "
-        "generate_source_patches) and whether a write is due (fixable violations and fix_string() changed the "
-        "text). Oracle: original and result bytes are decoded with that encoding by an injective decoder "
-        "(undecodable byte b -> U+F700+b), CRLF/CR -> LF on both; result must equal the reference application of "
-        "the patches to the original (so outside the union of patch ranges every character, hence every byte, is "
-        "unchanged); BOM class preserved; with a suffix the original keeps bytes/inode/mtime and the suffixed file "
-        "is judged; a file with no write due keeps bytes, inode and mtime and gets no suffixed copy. Cases where "
-        "the reference lint itself does not read the bytes as modelled (source_str differs from the "
-        "backslashreplace view) are excluded and counted. Non-trivial: some file of the case has non-ASCII bytes "
-        "and was changed by the fix; distinct by SHA-1 of the case."
+        "LintedFile.encoding (what get_encoding/chardet chose), the fixed tree and whether a write is due (fixable "
+        "violations, no TMP/PRS error, fix_string() changed the text). sqlfluff's own FixPatch list is useless as "
+        "the edited range for untemplated files (it is ONE patch covering the whole file, label "
+        "sqlfluff-patch-covers-whole-file), so the edited ranges are taken leaf by leaf from the fixed tree: a "
+        "leaf whose raw still equals the source text of its source_slice is untouched, everything else is edited. "
+        "Oracle: original and result bytes are decoded with the effective encoding by an injective decoder "
+        "(undecodable byte b -> U+F700+b), CRLF/CR -> LF on both; result must equal the reference text = edited "
+        "leaves as fixed + untouched leaves with the ORIGINAL characters of their source range (so outside the "
+        "edited ranges every character, hence every byte incl. undecodable ones, is unchanged); BOM class "
+        "preserved; with a suffix the original keeps bytes/inode/mtime and the suffixed file is judged; a file "
+        "with no write due keeps bytes, inode and mtime and gets no suffixed copy. If the reader is not the "
+        "documented backslashreplace one the source is aligned generically (label reader-differs-...); cases that "
+        "cannot be aligned, or whose fixed tree disagrees with fix_string, are excluded and counted. Non-trivial: "
+        "some file of the case has non-ASCII bytes and was changed by the fix; distinct by SHA-1 of the case."
     )
     assumptions = [
         "the patches and the decision to write are taken from sqlfluff's own read-only API run on the same bytes "
@@ -302,7 +306,7 @@ class C11(Check):
         return 6 if tier == "quick" else 200
 
     def budget_s(self, tier):
-        return 600.0 if tier == "quick" else 2400.0
+        return 1500.0 if tier == "quick" else 3000.0
 
     # ------------------------------------------------------------------
 
@@ -313,6 +317,7 @@ class C11(Check):
         from vlib.sf import Crash, guard
 
         out = Outcome()
+        wfiles.no_tqdm_monitor()
         mode = case.get("mode", "api")
         cfg_enc = case.get("cfg_encoding", "autodetect")
         suffix = case.get("suffix") or ""
